@@ -387,7 +387,46 @@ func (s cmap6or10) Lookup(r rune) (GID, bool) {
 
 type cmap12 []tables.SequentialMapGroup
 
-func newCmap12(cm tables.CmapSubtable12) cmap12 { return cm.Groups }
+func newCmap12(cm tables.CmapSubtable12) cmap12 { return sanitizeMapGroups(cm.Groups) }
+
+// sanitizeMapGroups returns the groups of a format 12 or 13 subtable
+// after removing the invalid ones : the groups must have StartCharCode <= EndCharCode
+// and be sorted by increasing StartCharCode without overlapping, which
+// is assumed by Lookup, Iter and RuneRanges.
+// Otherwise, an invalid font could for instance make the iteration over a 28 bytes
+// table yield billions of runes, or the coverage of a small table require
+// gigabytes of memory.
+// The input slice is returned when all its groups are valid.
+func sanitizeMapGroups(groups []tables.SequentialMapGroup) []tables.SequentialMapGroup {
+	const maxRune = 0x10FFFF
+	isValid := func(g tables.SequentialMapGroup, i int, previous []tables.SequentialMapGroup) bool {
+		if g.StartCharCode > g.EndCharCode || g.EndCharCode > maxRune {
+			return false
+		}
+		// the end of a group may be the start of the next one
+		return i == 0 || previous[i-1].EndCharCode <= g.StartCharCode
+	}
+	allValid := true
+	for i, g := range groups {
+		if !isValid(g, i, groups) {
+			allValid = false
+			break
+		}
+	}
+	if allValid {
+		return groups
+	}
+	out := make([]tables.SequentialMapGroup, 0, len(groups))
+	for _, g := range groups {
+		if g.StartCharCode <= maxRune && g.EndCharCode > maxRune { // keep the valid part
+			g.EndCharCode = maxRune
+		}
+		if isValid(g, len(out), out) {
+			out = append(out, g)
+		}
+	}
+	return out
+}
 
 type cmap12Iter struct {
 	data cmap12
@@ -435,7 +474,7 @@ func (s cmap12) Lookup(r rune) (GID, bool) {
 
 type cmap13 []tables.SequentialMapGroup
 
-func newCmap13(cm tables.CmapSubtable13) cmap13 { return cm.Groups }
+func newCmap13(cm tables.CmapSubtable13) cmap13 { return sanitizeMapGroups(cm.Groups) }
 
 type cmap13Iter struct {
 	data cmap13
